@@ -220,6 +220,28 @@ static void workload(struct tctx* c) {
       for (int k = (int)vh_below(&r, 3); k > 0; k--) { volatile int spin = 50; while (spin--) ; }
       STAMP(F_DECREF, cbor_decref(&it));
     }
+    /* now and then a private tree nested thousands of levels deep, built through the API and released: whatever the
+     * library does differently for very deep trees (iteration instead of recursion, a work list) is private to the call */
+    if (vh_below(&r, 60) == 0) {
+      size_t depth = 4200 + vh_below(&r, 2000);
+      cbor_item_t* cur = NULL;
+      STAMP(F_BUILD, cur = cbor_build_uint8(7));
+      bool ok = cur != NULL;
+      for (size_t lv = 0; lv < depth && ok; lv++) {
+        cbor_item_t* outer = (lv & 1) ? cbor_new_indefinite_array() : cbor_new_definite_array(1);
+        if (!outer) { ok = false; break; }
+        if (!cbor_array_push(outer, cur)) { cbor_decref(&outer); ok = false; break; }
+        cbor_decref(&cur);
+        cur = outer;
+      }
+      if (ok) {
+        size_t sz = 0;
+        STAMP(F_SIZE, sz = cbor_serialized_size(cur));
+        dg = vh_hash_mix(dg, sz);
+        c->ops_done[F_BUILD] += depth;
+      }
+      if (cur) STAMP(F_DECREF, cbor_decref(&cur));
+    }
     /* streaming layer and encoders on private buffers */
     {
       uint8_t* ex = vh_exact(enc.p, enc.n);
